@@ -282,6 +282,12 @@ def gen_case(rng, i, tier):
         if rng.random() < 0.3:
             lname = words[4] + '.' + ext
         files[lname] = {'link': tgt if d == '' else posixpath.join(d, posixpath.basename(tgt))}
+        if d == '' and '.' in tgt and rng.random() < 0.35:
+            # a link to a link: the chain comes from the name of the FINAL target, not from the intermediate hop
+            mid = words[3] + 'hop.' + ext
+            files[mid] = {'link': tgt}
+            files[lname] = {'link': mid}
+            labels.add('symlink:two-hops')
         # decoy: a layer named like the link's own prefix must NOT be used
         if lname.count('.') >= 2 and rng.random() < 0.7:
             add(words[4])
